@@ -209,7 +209,9 @@ Definition parse_float (s : text) : option (res val) :=
       let g := Z.gcd num den in
       let n := num / g in
       let dd := den / g in
-      Some (if pow2 dd && (n <? 2 ^ 53) then Ok (VFlt (if neg then - n else n) dd) else Err "OutOfModel:inexact float"%string)
+      (* exactly a double: power-of-two denominator and an odd part of at most 53 bits *)
+      Some (if pow2 dd && ((n =? 0) || (n / Z.land n (- n) <? 2 ^ 53)) then Ok (VFlt (if neg then - n else n) dd)
+            else Err "OutOfModel:inexact float"%string)
   | None => None
   end.
 
@@ -323,15 +325,16 @@ Fixpoint int_first (col : list text) : bool :=
   end.
 
 (* np.genfromtxt(dtype=None) on one column of texts: first converter in the order bool, int64, float, str
-   that accepts every cell.  A column with no non-blank cell is outside the model (its converter stays
-   "unchecked" and the resulting type depends on the other columns).
+   that accepts every cell.  A column with no non-blank cell, or a bool column with a blank cell, is outside
+   the model (its converter stays "unchecked" and the resulting type depends on the other columns).
    NumPy 2: on the way from float to str the upgrade loop passes the generic (np.integer, int) entry of
    StringConverter._mapper, whose overflow probe np.array(value, dtype=np.integer) raises TypeError as soon
    as int(value) succeeds -- i.e. when the first non-blank cell of a text column reads as an int. *)
 Definition infer_col (col : list text) : res (kind * list val) :=
   if forallb blank col then Err "OutOfModel:all-missing column"%string
   else match all_some (map conv_bool col) with
-  | Some vs => res_map (pair KBool) (res_list vs)
+  | Some vs => if existsb blank col then Err "OutOfModel:bool column with a missing cell"%string
+               else res_map (pair KBool) (res_list vs)
   | None =>
   match all_some (map conv_int col) with
   | Some vs => res_map (pair KInt) (res_list vs)
@@ -549,7 +552,7 @@ Definition cell_ok (flt : sfilter) (k : kind) (v : val) : bool :=
   let s := render_val flt v in
   renderable v &&
   match k with
-  | KBool => conv_is (conv_bool s) v
+  | KBool => negb (blank s) && conv_is (conv_bool s) v
   | KInt => conv_is (conv_int s) v
   | KFlt => conv_is (conv_float s) v
   | KStr => match v with VStr x => negb (is_sentinel flt x) | _ => false end
